@@ -1,7 +1,8 @@
 #!/bin/sh
 # usage: try_mutant.sh <patch.diff> <prop> [<prop>...]   — applies the patch to /repo, runs the checks, undoes it
 P="$1"; shift
-cd /repo || exit 2
+R="${VERIF_REPO:-/repo}"
+cd "$R" || exit 2
 if ! git apply --check "$P" 2>/dev/null; then echo "PATCH DOES NOT APPLY: $P"; exit 3; fi
 git apply "$P"
 for prop in "$@"; do
